@@ -133,6 +133,19 @@ def snapshot(h, rank):
     return (bool(h.is_weighted()), nodes, edges, nmd)
 
 
+def incidence_view(h):
+    """what every incidence query of the argument answers: per node the sorted incident hyperedges and the degree
+    (an exception is an observation) - 'leave the argument untouched' includes its incidence structure"""
+    out = {}
+    for x in sorted(h.get_nodes(), key=repr):
+        try:
+            out[repr(x)] = (sorted(tuple(sorted(e, key=repr)) for e in h.get_incident_edges(x)), h.degree(x),
+                            sorted(h.get_neighbors(x), key=repr))
+        except Exception as ex:
+            out[repr(x)] = "exc:" + type(ex).__name__
+    return out
+
+
 def show_snap(s):
     ks = sorted(s[2])
     return " ".join([hgxv.enc_num(s[0]), hgxv.enc_list(s[1]), hgxv.enc_lists(ks),
@@ -361,6 +374,13 @@ def gen_scale_free(rng, malformed=False):
     k = rng.randint(1, 3)
     sizes = rng.sample(range(2, min(4, n - 1) + 1), min(k, min(4, n - 1) - 1))
     counts = [rng.randint(0, min(4, math.comb(n, s) // 2)) for s in sizes]
+    near_sat = False
+    if rng.random() < 0.25 and n <= 7:
+        # near saturation: between half and all of the possible hyperedges of a size (feasible, but the rejection loop
+        # needs many draws)
+        counts = [rng.randint(math.comb(n, s) // 2, min(max(math.comb(n, s) // 2, (17 * math.comb(n, s)) // 20), 21))
+                  for s in sizes]
+        near_sat = True
     scales = [rng.choice([0.5, 1.0, 2.0, 3.5]) for _ in sizes]
     skeys = list(sizes)
     mode = rng.choice(["default", "default", "uncorr", "target", "target", "shuffles", "corr_plain"])
@@ -395,7 +415,8 @@ def gen_scale_free(rng, malformed=False):
         elif bad == "neg_count":
             counts[0] = -1
     return {"routine": "scale_free", "n": n, "sizes": sizes, "counts": counts, "scale_keys": skeys, "scales": scales,
-            "kwargs": kw, "valid": valid, "ambient": [rng.randint(0, 10 ** 6), rng.randint(0, 10 ** 6)]}
+            "kwargs": kw, "valid": valid, "near_saturation": near_sat and valid,
+            "ambient": [rng.randint(0, 10 ** 6), rng.randint(0, 10 ** 6)]}
 
 
 # ------------------------------------------------------------------------------------------------
@@ -475,6 +496,7 @@ def check_add(ctx, drv, case, secs=8.0):
     rank = rank_of(spec)
     hg = build(spec)
     before = snapshot(hg, rank)
+    before_inc = incidence_view(hg)
     kw = dict(case["kwargs"])
     many = case["k"] is not None
 
@@ -521,6 +543,8 @@ def check_add(ctx, drv, case, secs=8.0):
             ctx.violation(case, "inplace=False returned nothing")
         if after_arg != before:
             ctx.violation(case, f"inplace=False changed its argument: {before} -> {after_arg}")
+        elif incidence_view(hg) != before_inc:
+            ctx.violation(case, f"inplace=False changed the incidence structure of its argument: {before_inc} -> {incidence_view(hg)}")
     changed = False
     if out is not None:
         if out[1] != before[1] or out[3] != before[3]:
@@ -608,6 +632,7 @@ def check_shuffle(ctx, drv, case, secs=8.0):
     rank = rank_of(spec)
     hg = build(spec)
     before = snapshot(hg, rank)
+    before_inc = incidence_view(hg)
     kw = dict(case["kwargs"])
     pn, pd = case["p"]
     allo = case["all_orders"]
@@ -668,6 +693,8 @@ def check_shuffle(ctx, drv, case, secs=8.0):
             ctx.violation(case, "inplace=False returned nothing")
         if after_arg != before:
             ctx.violation(case, f"inplace=False changed its argument: {before} -> {after_arg}")
+        elif incidence_view(hg) != before_inc:
+            ctx.violation(case, f"inplace=False changed the incidence structure of its argument: {before_inc} -> {incidence_view(hg)}")
     replaced_some = kept_some = False
     if out is not None:
         if out[1] != before[1] or out[3] != before[3]:
@@ -812,6 +839,12 @@ def attempt(ctx, drv, case, secs):
 def run_case(ctx, drv, case):
     """a call that exceeds the alarm is repeated once with a four times longer limit before it counts as
     'does not return' (all generated requests are feasible and small: a healthy call takes milliseconds)"""
+    if case.get("near_saturation"):
+        # the rejection loop of a near-saturated request may legitimately need very many draws (termination is only
+        # probabilistic): a slow call here is "no output", counted, never a violation
+        if attempt(ctx, drv, case, 3.0) == "timeout":
+            ctx.count("near_saturation_calls_abandoned")
+        return
     if attempt(ctx, drv, case, 5.0) == "timeout":
         ctx.count("slow_calls_repeated")
         if attempt(ctx, drv, case, 20.0) == "timeout":
